@@ -6,6 +6,10 @@
    (c) judges the property on Go's own output: no decode error, decoded observable fields
        bit-identical to the original (coordinates, vertex order, loop order, depths, origin flags),
        second encoding identical.
+   (d) for loops / polygons additionally requires the harness' query comparison token to be `T`
+       (original and decoded Go value answer NumEdges/Edge/Chain/ReferencePoint/ContainsPoint/Area … identically).
+  An encode error of the implementation is the single token `ENCERR`; it is compared with the model
+  encoder (`none`) and is not a property failure (the property speaks about encodable values).
   `diff` = model ≠ implementation;  `propfail` = the property itself fails on the implementation.
 -/
 import Oracle.Basic
@@ -146,21 +150,26 @@ def handle (op : String) (args res : List String) : Option String :=
     pure (judge model res prop)
   | "enccu", [a] => do
     let cu ← parseList? parseU64? a
+    match encodeCellUnion cu with
+    | none => pure (verdict ["ENCERR"] res)
+    | some bytes =>
     let dec := match res with
       | hx :: _ => (parseBytes? hx).bind (runDec decodeCellUnion)
       | _ => none
-    let model := [showBytes (encodeCellUnion cu), if dec.isSome then "ok" else "E", (dec.map (showList u64Hex)).getD "-", "T"]
+    let model := [showBytes bytes, if dec.isSome then "ok" else "E", (dec.map (showList u64Hex)).getD "-", "T"]
     let prop := match res with
+      | ["ENCERR"] => none
       | [_, e, q, same] => if e != "ok" then some "decode-error" else if q != showList u64Hex cu then some "cellunion-differs"
                            else if same != "T" then some "second-encoding-differs" else none
       | _ => some "impl-output-arity"
     pure (judge model res prop)
   | "enccubig", [n] => do
-    -- too long to ship: the model predicts the length and whether the decoder accepts
+    -- too long to ship: the model predicts acceptance by the encoder, the length, and the decoder's verdict
     let n ← parseNat? n
-    let accepted := decide (n ≤ maxCells)
-    let model := [toString (9 + 8 * n), if accepted then "ok" else "E", toString (if accepted then n else 0), showBool accepted]
+    let accepted := decide (n ≤ maxCells)     -- = (encodeCellUnion cu).isSome, see `encodeCellUnion_isSome_iff`
+    let model := if accepted then [toString (9 + 8 * n), "ok", toString n, "T"] else ["ENCERR"]
     let prop := match res with
+      | ["ENCERR"] => none     -- the encoder refused: nothing to round-trip
       | [_, e, _, eq] => if e != "ok" then some "decode-error-on-own-encoding" else if eq != "T" then some "cellunion-differs" else none
       | _ => some "impl-output-arity"
     pure (judge model res prop)
@@ -177,11 +186,11 @@ def handle (op : String) (args res : List String) : Option String :=
     pure (judge model res prop)
   | "encloop", _ | "encloopof", _ =>
     match res with
-    | [hx, orig, e, decTok, same] => do
+    | [hx, orig, e, decTok, same, qs] => do
       let l ← parseLoop? orig
       let dec := (parseBytes? hx).bind (runDec decodeLoop)
       let model := [showBytes (encodeLoop l), orig, if dec.isSome then "ok" else "E",
-                    (dec.map fun d => showLoopC d.toC none).getD "-", "T"]
+                    (dec.map fun d => showLoopC d.toC none).getD "-", "T", "T"]
       let prop :=
         if e != "ok" then some "decode-error" else
         match parseLoop? decTok with
@@ -190,18 +199,19 @@ def handle (op : String) (args res : List String) : Option String :=
           if d.vertices != l.vertices then some "loop-vertices-not-bit-identical"
           else if d.originInside != l.originInside then some "loop-originInside-differs"
           else if d.depth != l.depth then some "loop-depth-differs"
-          else if same != "T" then some "second-encoding-differs" else none
+          else if same != "T" then some "second-encoding-differs"
+          else if qs != "T" then some ("loop-queries-differ-" ++ qs) else none
       pure (judge model res prop)
     | _ => some "propfail impl-output-arity"
   | "encpolygon", _ =>
     match res with
-    | [hx, orig, e, decTok, same] => do
+    | [hx, orig, e, decTok, same, qs] => do
       let p ← parsePoly? orig
       let implDec := parsePoly? decTok
       let bytes := encodePolygon p
       let dec := (parseBytes? hx).bind (runDec decodePolygon)
       let model := [(bytes.map showBytes).getD "ENCERR", orig, if dec.isSome then "ok" else "E",
-                    (dec.map fun d => showPolyD d implDec).getD "-", "T"]
+                    (dec.map fun d => showPolyD d implDec).getD "-", "T", "T"]
       let prop :=
         if e != "ok" then some "decode-error" else
         match implDec with
@@ -212,7 +222,8 @@ def handle (op : String) (args res : List String) : Option String :=
           else if d.loops.map (·.originInside) != p.loops.map (·.originInside) then some "polygon-originInside-differs"
           else if d.loops.map (·.depth) != p.loops.map (·.depth) then some "polygon-depths-differ"
           else if d.hasHoles != p.hasHoles then some "polygon-hasHoles-differs"
-          else if same != "T" then some "second-encoding-differs" else none
+          else if same != "T" then some "second-encoding-differs"
+          else if qs != "T" then some ("polygon-queries-differ-" ++ qs) else none
       pure (judge model res prop)
     | _ => some "propfail impl-output-arity"
   -- primitives (pure model-vs-implementation ties)
